@@ -81,9 +81,9 @@ Lemma tree_rows_perm events events' files files' :
   tree_rows events files = tree_rows events' files'.
 Proof.
   intros Pe Pf N. unfold tree_rows. rewrite (iter_codebase_perm _ _ Pf N).
-  assert (H : map (fun f => (pf_path f, sm_build (file_contribs events f))) (iter_codebase files') =
-              map (fun f => (pf_path f, sm_build (file_contribs events' f))) (iter_codebase files')).
-  { apply map_ext. intros f. f_equal. f_equal. apply file_contribs_ext. intros; now apply assoc_of_perm. }
+  assert (H : map (fun f => (pf_path f, (is_link f, sm_build (file_contribs events f)))) (iter_codebase files') =
+              map (fun f => (pf_path f, (is_link f, sm_build (file_contribs events' f)))) (iter_codebase files')).
+  { apply map_ext. intros f. f_equal. f_equal. f_equal. apply file_contribs_ext. intros; now apply assoc_of_perm. }
   now rewrite H.
 Qed.
 
@@ -119,7 +119,7 @@ Proof.
   intros Pf N Pe. unfold f_answer.
   rewrite (get_setmap_sorted_eq _ _ _ _ Pe Pf N), (iter_codebase_perm _ _ Pf N).
   f_equal. f_equal. f_equal. unfold of_list. f_equal. apply map_ext. intros f. f_equal. f_equal. f_equal. f_equal.
-  apply map_ext. intros iv. now rewrite (assoc_of_perm _ _ (pf_path f) (fst iv) Pe).
+  apply map_ext. intros iv. now rewrite (assoc_of_perm _ _ (pf_real f) (fst iv) Pe).
 Qed.
 
 (* the table form: contributions in any order *)
